@@ -44,6 +44,7 @@ type World struct {
 	Log      []WriteRec
 	logOn    bool
 	failIn   int // >0: countdown to the failing write
+	failRead int // >0: countdown to the failing point read (Get / Has)
 	Failures int // number of injected failures that fired
 }
 
@@ -94,12 +95,37 @@ func (w *World) FailNthWrite(n int) {
 	w.mu.Unlock()
 }
 
+// FailNthRead arms read-fault injection: the n-th (n>=1) point read (Get / Has) from now returns an I/O error
+// (not "not found").
+func (w *World) FailNthRead(n int) {
+	w.mu.Lock()
+	w.failRead = n
+	w.mu.Unlock()
+}
+
+// ErrInjectedRead is returned by a point read hit by fault injection.
+var ErrInjectedRead = errors.New("verifmem: injected read error")
+
+func (w *World) readFault() error {
+	w.mu.Lock()
+	defer w.mu.Unlock()
+	if w.failRead > 0 {
+		w.failRead--
+		if w.failRead == 0 {
+			w.Failures++
+			return ErrInjectedRead
+		}
+	}
+	return nil
+}
+
 // Disarm removes a pending fault; reports whether one was still pending.
 func (w *World) Disarm() bool {
 	w.mu.Lock()
 	defer w.mu.Unlock()
-	p := w.failIn > 0
+	p := w.failIn > 0 || w.failRead > 0
 	w.failIn = 0
+	w.failRead = 0
 	return p
 }
 
@@ -225,8 +251,18 @@ func (m *memDB) Put(k, v []byte) error {
 	}
 	return m.db.Put(k, v, nil)
 }
-func (m *memDB) Get(k []byte) ([]byte, error) { return m.db.Get(k, nil) }
-func (m *memDB) Has(k []byte) (bool, error)   { return m.db.Has(k, nil) }
+func (m *memDB) Get(k []byte) ([]byte, error) {
+	if err := m.w.readFault(); err != nil {
+		return nil, err
+	}
+	return m.db.Get(k, nil)
+}
+func (m *memDB) Has(k []byte) (bool, error) {
+	if err := m.w.readFault(); err != nil {
+		return false, err
+	}
+	return m.db.Has(k, nil)
+}
 func (m *memDB) Delete(k []byte) error {
 	if err := m.w.record(WriteRec{DB: m.name, Kind: "delete", Ops: []KVOp{{Del: true, K: cp(k)}}}); err != nil {
 		return err
